@@ -402,6 +402,39 @@ def check(case, ctx):
                      % ('curve' if pdim == 1 else 'surface', type(e).__name__, degs, e))
         else:
             ctx.ok('hodograph-degree-1')
+    # ---- hodograph constructors asked for a rational shape: the derivative of a rational shape is no shape of this construction; the
+    #      library refuses (a warning, the input handed back - or an exception). Anything ELSE it returns is taken for the hodograph.
+    if sd['rational'] and all(d >= 2 for d in degs) and pdim in (1, 2):
+        import warnings
+        ctx.tag('hodograph:rational-refused')
+        with warnings.catch_warnings(record=True) as wlist:
+            warnings.simplefilter('always')
+            try:
+                res = operations.derivative_curve(o) if pdim == 1 else operations.derivative_surface(o)
+            except Exception as e:
+                if type(e).__name__ not in ('ValueError', 'GeomdlException', 'TypeError', 'NotImplementedError'):
+                    raise
+                res = None
+        if res is None or (res is o and wlist):
+            ctx.ok('hodograph')
+        else:
+            hods = [res] if pdim == 1 else (list(res) if isinstance(res, (list, tuple)) else [res])
+            bad = None
+            for _, prm in prms[:6]:
+                if not so.clear_of_knots(S, prm, 1e-6):
+                    continue
+                ex = [S.curve_ders(prm[0], 1)[1]] if pdim == 1 else [S.surface_ders(prm[0], prm[1], 2)[kl] for kl in ((1, 0), (0, 1), (1, 1))]
+                try:
+                    got = [h_.evaluate_single(prm[0] if pdim == 1 else tuple(prm)) for h_ in hods]
+                except Exception as e:
+                    bad = 'evaluating it at %r raised %s' % (prm, type(e).__name__)
+                    break
+                if len(got) != len(ex) or any(not all(abs(a - b) <= 1e-9 * sc * 1e3 for a, b in zip(g_, e_)) for g_, e_ in zip(got, ex)):
+                    bad = 'at %r it evaluates %r, the exact derivative is %r' % (prm, got[0], [float(x) for x in ex[0]])
+                    break
+            ctx.check(bad is None, 'hodograph/rational-not-refused', 'derivative_%s of a RATIONAL shape returned %s without refusing (no warning / '
+                      'not the input handed back): %s' % ('curve' if pdim == 1 else 'surface', 'a new object' if res is not o else 'the input silently',
+                                                        bad), what='hodograph')
     # ---- hodograph constructors (non-rational, degree >= 2 in the differentiated directions) -----------------------------------------
     if not sd['rational'] and all(d >= 2 for d in degs):
         doms = G.domains_of(o)
